@@ -20,6 +20,6 @@ YOUR TASK: make ONE realistic change to the library's source under {wt}/src/type
 
 DELIVER, all inside {wt}:
 1. the change, left UNCOMMITTED in the working tree (so that `git -C {wt} diff` shows exactly it) — source files only, do not edit tests;
-2. a demonstration script {wt}/demo.py that uses only the public API, prints what it observes, exits 1 when the property is violated and exits 0 when it holds; verify BOTH: with your change it exits 1; with the change stashed (`git -C {wt} stash`, run, `git -C {wt} stash pop`) it exits 0;
+2. a demonstration script {wt}/demo.py that uses only the public API, prints what it observes, exits 1 when the property is violated and exits 0 when it holds; verify BOTH: with your change it exits 1; with the change temporarily removed it exits 0 — do NOT use `git stash` (all worktrees of this repository share one stash): save the diff (`git -C {wt} diff > {wt}/change.patch`), revert (`git -C {wt} checkout -- src`), run the demo, then re-apply (`git -C {wt} apply {wt}/change.patch`) and check `git -C {wt} diff` shows exactly your change again;
 3. confirm the test-suite result with your change applied.
 In your final message give: the diff, what the change does and why it is plausible, exactly what is needed for the violation to manifest, and the outputs of the demo with and without the change.""")
